@@ -61,3 +61,22 @@ Definition quads_eqb (x y : list (list nat)) : bool :=
   (length x =? length y)%nat
   && forallb (fun p => (length (fst p) =? length (snd p))%nat
                        && forallb (fun ab => (fst ab =? snd ab)%nat) (combine (fst p) (snd p))) (combine x y).
+
+(** * Lofts between a plane sketch and its translated, scaled copy (Cylinder, SemiCylinder, Frustum,
+    ExtrudedRing, ExtrudedShape): the top sketch is the bottom one moved by [ext] and scaled by [rho]
+    about its (moved) centre, as RoundSolidShape does with [Translation; Scaling].  The corner
+    Jacobians are oriented as in the reference hexahedron: at every corner the edge towards the next
+    corner of the quad, the edge towards the previous one and the edge from bottom to top. *)
+Definition top_pt (c ext : vec) (rho : R) (p : vec) : vec := vadd (vadd c ext) (vscale rho (vsub p c)).
+Definition corner_jacobian_bot (pt : nat -> vec) (top : vec -> vec) (q : list nat) (k : nat) : R :=
+  let p := pt (nth k q 0%nat) in
+  triple (vsub (pt (nth ((k + 1) mod 4) q 0%nat)) p) (vsub (pt (nth ((k + 3) mod 4) q 0%nat)) p) (vsub (top p) p).
+Definition corner_jacobian_top (pt : nat -> vec) (top : vec -> vec) (q : list nat) (k : nat) : R :=
+  let p := pt (nth k q 0%nat) in
+  triple (vsub (top (pt (nth ((k + 1) mod 4) q 0%nat))) (top p)) (vsub (top (pt (nth ((k + 3) mod 4) q 0%nat))) (top p))
+         (vsub (top p) p).
+
+
+(** HalfDisk and QuarterDisk are parts of the four-core disk: their point numbers in its numbering *)
+Definition half_emb (k : nat) : nat := if (k <=? 5)%nat then k else (k + 3)%nat.
+Definition quarter_emb (k : nat) : nat := if (k <=? 3)%nat then k else (k + 5)%nat.
